@@ -230,6 +230,22 @@ func runParked(res *caseResult, idx int, dir, tier string, rnd *rand.Rand) {
 		if parkedOK {
 			res.count("flushes_parked_with_queries_inside", 1)
 			res.count("parked_at."+point, 1)
+			// If the flush is parked while it holds a lock the queries need (a tree that commits the table file under the
+			// family lock), the queries below would wait for the release and the release for them: a guard opens the
+			// gate after a few seconds (workload pacing, nothing is decided on it).
+			var once sync.Once
+			release := g.release
+			releaseGate := func() { once.Do(func() { close(release) }) }
+			var guardFired int32
+			guard := time.AfterFunc(5*time.Second, func() {
+				atomic.StoreInt32(&guardFired, 1)
+				releaseGate()
+			})
+			defer func() {
+				if atomic.LoadInt32(&guardFired) == 1 {
+					res.count("parked_flush_released_by_guard", 1)
+				}
+			}()
 			st := target.GetState()
 			imm := false
 			for _, s := range st.MemoryDatabases {
@@ -332,7 +348,8 @@ func runParked(res *caseResult, idx int, dir, tier string, rnd *rand.Rand) {
 					}
 				}
 			}
-			close(g.release)
+			releaseGate()
+			guard.Stop()
 		}
 		g.disarm()
 		select {
